@@ -57,6 +57,17 @@ def gen(rng, tier):
         if sg.size(ast) >= 4 and sg.vars_of(ast) and not (mode == 'on' and common.f08_blind(ast)):
             break
     defs, top = sg.modularize(rng, ast, max_subs=3)
+    extra_def = None
+    if rng.random() < 0.2 and not future:
+        # a further named requirement that the main assertion does not use, placed somewhere among the sub-specifications
+        extra_def = [rng.randint(0, len(defs)), sg.gen_formula(rng, sg.GenCfg(vars=vars_, ops=ops, max_depth=2, max_bound=2))]
+    if rng.random() < 0.15 and top[0] != 'ref' and len(defs) < 4:
+        # the main assertion only gives a name of its own to a sub-specification: 'out = p;'
+        nm = [n_ for n_ in ('p1', 'p2', 'p3', 'p4') if n_ not in [d_[0] for d_ in defs]][0]
+        defs = defs + [[nm, top]]
+        top = ['ref', nm]
+        if extra_def is None and rng.random() < 0.6 and not future:
+            extra_def = [len(defs), sg.gen_formula(rng, sg.GenCfg(vars=vars_, ops=ops, max_depth=2, max_bound=2))]
     sem, io = None, {}
     if kind in ('dt', 'ct') and rng.random() < 0.4:
         # interface-aware semantics (only the combined classes take one): modular and inlined form get the same declarations
@@ -118,6 +129,8 @@ def gen(rng, tier):
         return '[' + one(lo) + sp.sep() + one(hi) + ']'
     sp = sg.Spelling(rng)
     subs = ['%s = %s;' % (n, sg.to_text(a, sp, bp)) for n, a in defs_c]
+    if extra_def is not None:
+        subs.insert(min(extra_def[0], len(subs)), 'x9 = %s;' % sg.to_text(extra_def[1], sp, (common.dense_bounds if dense else None)))
     toptext = 'out = ' + sg.to_text(top_c, sp, bp) + ';'
     pastify = mode == 'on' and (any(x[0] in sg.FUTURE_OPS for x in sg.walk(ast)) or rng.random() < 0.1)
     sc = {'kind': kind, 'mode': mode, 'vars': vars_, 'ast': ast, 'defs': defs, 'top': top, 'subs_text': subs, 'top_text': toptext,
